@@ -914,6 +914,12 @@ class RecordLayer(object):
 
             try:
                 if isinstance(header, RecordHeader2):
+                    if self.version not in ((2, 0), (0, 2)) and \
+                            self._readState and self._readState.encContext:
+                        # SSLv2 framing is valid only for the initial,
+                        # unencrypted, ClientHello of SSLv3 and later
+                        raise TLSIllegalParameterException(
+                            "SSLv2 record in encrypted connection")
                     data = self._decryptSSL2(data, header.padding)
                     if self.handshake_finished:
                         header.type = ContentType.application_data
